@@ -43,6 +43,22 @@ PROPS = {
         "assumptions": ["programs that exceed the step/recursion fuel or the per-case time limit are inconclusive",
                         "stack exhaustion of the real evaluator on deep recursion is outside the model"],
     },
+    "C01": {
+        "level": "translation_validation",
+        "streams": ["C01"],
+        "case_ms": 5000,
+        "rule": "programs from the type-directed generator (annotations omitted with probability 0.4-0.7, `_` in type positions, recursive and "
+                "mutually recursive groups, nested groups, higher-order functions, type-level terms) plus the dedicated witnesses of the recorded "
+                "findings; every program the implementation accepts is run by the implementation and a stuck result is classified by the "
+                "extracted, proved stuck_reason; anything but division by zero is a failing input. Non-trivial: the program was accepted and "
+                "evaluated; distinct by source text.",
+        "trusted_base": TB_COMMON + [
+            "modelled, not verified: stuck_reason is proved complete for the evaluator MODEL (Theorem stuck_classified); that the model is the implementation's evaluator is checked by the C02 correspondence",
+            "hook H1 (feature verif): counter of unresolved holes met by `open`, used only to attribute a failure to the recorded finding D9",
+        ],
+        "assumptions": ["progress as a universal theorem is not claimed (needs confluence with type:type and recursive groups); the property is decided per generated instance",
+                        "programs that do not terminate within the per-case time limit are inconclusive"],
+    },
 }
 
 NOT_APPLICABLE = {}
@@ -68,5 +84,14 @@ MANIFEST_TEXT = {
         "note": "Trusted: Coq kernel, extraction, OCaml driver, Rust harness. The model/code tie is differential. The reference "
                 "interpreter is an executable spec (not proved equivalent to cbv). BigInt is modelled by Z.",
         "technique": "Coq proof that the evaluator model equals an evaluation-context CBV semantics + exhaustive single-step differential testing + 3-way program evaluation",
+    },
+    "C01": {
+        "text": "Per-instance validation with a proved classifier: every accepted generated program is run; if it is stuck, the proved "
+                "`stuck_reason` (complete taxonomy of stuck terms of the evaluator model, Theorem stuck_classified / outcome_classified) "
+                "names the reason, and any reason other than division by zero is reported with the program as replay. The universal "
+                "progress theorem is not claimed; three genuine violations are recorded as known findings (D7, D9, D14).",
+        "design_ref": "DESIGN.md section 4, C01; section 5",
+        "note": "Trusted: Coq kernel, extraction, OCaml driver, harness. Known findings are matched by signature (reason + binder of the stuck variable / hook H1).",
+        "technique": "translation validation: implementation run + proved stuck-term classifier (Coq), type-directed program generation",
     },
 }
